@@ -2,6 +2,7 @@ import ObiVerif.Model.Kmer
 import ObiVerif.Model.DeBruijn
 import ObiVerif.Model.DeBruijnCov
 import ObiVerif.Model.KmerIndex
+import ObiVerif.Model.DeBruijnHist
 import ObiVerif.Driver.Util
 /-! line protocol for C19 (see `harness/c19.go` for the case and result formats) -/
 namespace ObiVerif.Driver.C19
@@ -112,6 +113,69 @@ def runIndex (w k : Nat) (sparse : Bool) (maxocc mincount : Int) (self : Bool) (
       let rep := kmQuery m idx rank (seqs.length - 1) q
       s!"len={idx.len} m={showMatch rep} f={showMatch (filterMinCount rep mincount)}"
 
+/-! ### histories on one object (`gh`, `kh`) -/
+
+/-- a step of `gh`: `p:<hexread>:<count>` | `f:<min>` | `q` | `c:<float64 bits>:<obs>`; `obs` = what the real code
+returned for the `c` step (used as in `gc`) -/
+def parseStep (s : String) : Option (Step × String) :=
+  match s.splitOn ":" with
+  | ["q"] => some (.query, "")
+  | ["f", mn] => mn.toInt?.map fun m => (.filter m, "")
+  | ["p", r, c] => (parseRead (r ++ ":" ++ c)).map fun (s, c) => (.push s c, "")
+  | ["c", bits, obs] => do
+    let b ← hexNat? bits
+    let (m, e) ← floatOfBits b
+    pure (.cov m e, obs)
+  | _ => none
+
+/-- what a step prints, on the state AFTER the step -/
+def showStep (k : Nat) (g : Graph) : Step × String → String
+  | (.push _ _, _) => "p"
+  | (.filter _, _) => "f"
+  | (.query, _) => s!"mw={g.maxWeight} len={g.len} {showGraph k g}"
+  | (.cov m e, obs) =>
+    let cands := (g.consensusCovCands hpFuel m e).map consStr
+    let c := match cands with
+      | [c] => c
+      | _ => if cands.contains obs then obs else "!" ++ "|".intercalate cands
+    s!"cons={c}"
+
+/-- `gh`: the functional model applied step by step (`Graph.apply`), every observation printed -/
+def runHist (k : Nat) : Graph → List (Step × String) → List String
+  | _, [] => []
+  | g, s :: t => let g' := g.apply s.1; showStep k g' s :: runHist k g' t
+
+/-- a step of `kh`: `p:<hexseq>:<maxocc>` | `q:<hexseq | @j>:<mincount>`; `nfresh` identifies a query that is not a
+pushed sequence -/
+def parseIStep (nfresh : Nat) (pushed : List (List UInt8)) (s : String) : Option IStep :=
+  match s.splitOn ":" with
+  | ["p", r, mo] => do
+    let r ← unhex r
+    let mo ← mo.toInt?
+    if mo < -1 ∨ mo > 1000000 then none else pure (.push (r.map lower) mo)
+  | ["q", q, mc] => do
+    let mc ← mc.toInt?
+    if mc < -1000000 ∨ mc > 1000000 then none else
+    match q.toList with
+    | '@' :: d =>
+      let j ← (String.ofList d).toNat?
+      if j < pushed.length ∧ toString j = String.ofList d then pure (.query j (pushed.getD j []) mc) else none
+    | _ => (unhex q).map fun s => .query nfresh (s.map lower) mc
+  | _ => none
+
+/-- the steps of `kh`, `@j` referring to the j-th sequence pushed so far -/
+def parseISteps (nfresh : Nat) : List (List UInt8) → List String → Option (List IStep)
+  | _, [] => some []
+  | pushed, s :: t => do
+    let st ← parseIStep nfresh pushed s
+    let pushed' := match st with | .push r _ => pushed ++ [r] | _ => pushed
+    let rest ← parseISteps nfresh pushed' t
+    pure (st :: rest)
+
+def showIObs : IObs → String
+  | .len n => s!"len={n}"
+  | .matched n m f => s!"len={n} m={showMatch m} f={showMatch f}"
+
 /-- one sequential operation (the words of its case line) -/
 def runWords (ws : List String) : String :=
   match ws with
@@ -155,6 +219,22 @@ def runWords (ws : List String) : String :=
     match k.toNat?, hexNat? bits, reads.mapM parseRead with
     | some k, some bits, some reads => if k < 1 ∨ k > 32 then "bad-op" else runCov k bits obs reads
     | _, _, _ => "bad-op"
+  | "gh" :: k :: steps =>
+    match k.toNat?, steps.mapM parseStep with
+    | some k, some steps =>
+      if k < 1 ∨ k > 32 ∨ steps.isEmpty then "bad-op" else " ; ".intercalate (runHist k (makeGraph k) steps)
+    | _, _ => "bad-op"
+  | "kh" :: w :: k :: sp :: steps =>
+    match w.toNat?, k.toNat? with
+    | some w, some k =>
+      if (w ≠ 64 ∧ w ≠ 128 ∧ w ≠ 256) ∨ k < 1 ∨ k > 200 ∨ (sp ≠ "0" ∧ sp ≠ "1") ∨ steps.isEmpty then "bad-op" else
+        match parseISteps steps.length [] steps with
+        | none => "bad-op"
+        | some st =>
+          match newKmerMap w k (sp == "1") with
+          | .error _ => "panic"
+          | .ok m => " ; ".intercalate ((itrace m id ⟨[], 0⟩ st).map showIObs)
+    | _, _ => "bad-op"
   | "g" :: k :: reads =>
     match k.toNat?, reads.mapM parseRead with
     | some k, some reads => if k < 1 ∨ k > 32 then "bad-op" else runGraph k reads
